@@ -23,7 +23,7 @@ FUNS = {
     'tan': ('tan', 1), 'acos': ('acos', 1), 'asin': ('asin', 1), 'atan': ('atan', 1),
     'atan2': ('atan2', 2), 'abs': ('Rabs', 1), 'erf': ('erf', 1), 'sign': ('sgn', 1),
     'Phi': ('Phi', 1), 'min': ('Rmin', 2), 'max': ('Rmax', 2), 'rmod': ('rmod', 2), 'fmod': ('Rfmod', 2),
-    'floor': ('Rfloor', 1),
+    'floor': ('Rfloor', 1), 'rpow': ('Rpower', 2),
 }
 
 
@@ -181,7 +181,7 @@ def _rmod(x, m):
 PYENV = {'sqrt': math.sqrt, 'exp': math.exp, 'ln': math.log, 'cos': math.cos, 'sin': math.sin,
          'tan': math.tan, 'acos': math.acos, 'asin': math.asin, 'atan': math.atan,
          'atan2': math.atan2, 'abs': abs, 'erf': math.erf, 'sign': _sgn, 'Phi': _Phi,
-         'min': min, 'max': max, 'rmod': _rmod, 'floor': math.floor, 'fmod': math.fmod}
+         'min': min, 'max': max, 'rmod': _rmod, 'floor': math.floor, 'fmod': math.fmod, 'rpow': math.pow}
 
 
 def evaluate(e, env, funs=None):
